@@ -157,6 +157,9 @@ discipline of a member comes from (what the code and its comments say it intends
   `nextConnId_` belong to the acceptor loop (`newConnection`, `removeConnectionInLoop`).  After the
   unconditional `threadPool_->start(...)` in `start()` the caller *is* the loop thread
   (`EventLoopThreadPool::start` is loop-confined and fails fast elsewhere): owner check `threadPool_->start`.
+  `alive_` (c11cd6c) is the server's life token: created by the constructor, copied into a `weak_ptr` by
+  `newConnection` and reset by `~TcpServer`, both on the base loop thread (the destructor asserts it); the
+  io threads only ever hold the `weak_ptr` copies, never the member: confined.
 * `TcpClient` — `connection_` is `GUARDED_BY(mutex_)` (shared between the loop and callers of
   `connection()`/`disconnect()`); `retry_`, `connect_` are written by `enableRetry/connect/disconnect/stop`
   on any thread and read by the loop: atomic (F5); `nextConnId_` loop only.
@@ -164,14 +167,18 @@ discipline of a member comes from (what the code and its comments say it intends
   `retryDelayMs_` loop only.
 * `TimerQueue` — everything but the constant `loop_`/`timerfd_` is touched by `addTimerInLoop`,
   `cancelInLoop`, `handleRead` only: loop thread.
-* `EventLoopThread` — `loop_` is handed from the new thread to `startLoop()` under `mutex_`/`cond_`.
+* `EventLoopThread` — `loop_` is handed from the new thread to `startLoop()` under `mutex_`/`cond_`;
+  `finished_` (380ef1d, `GUARDED_BY(mutex_)` in the header) is set by `threadFunc` when `loop()` has returned
+  and tested by `startLoop()`'s wait loop, both under `mutex_`.
 * `EventLoopThreadPool`, `Acceptor` — base-loop objects: confined, configuration by set-up methods.
 * `ThreadPool`, `BlockingQueue`, `BoundedBlockingQueue`, `CountDownLatch`, `AsyncLogging` — monitors: the
   queue/count/buffers are `GUARDED_BY(mutex_)` in the headers; `running_` flags are tested outside the
   lock by the worker/back-end thread: atomic (F5 for `ThreadPool`); `threads_`/`thread_` belong to the
   single owner that calls `start()/stop()`.
 * `Logging` — the globals `g_logLevel`, `g_output`, `g_flush`, `g_logTimeZone` are configured before
-  threads log (documented usage) and only read by the `LOG_*` path. -/
+  threads log (documented usage) and only read by the `LOG_*` path; `g_logTimeZoneGen` (fab6852) is the
+  generation counter `setTimeZone` bumps and every logging thread compares with its cached value:
+  `std::atomic<int>`. -/
 def policies : List ClassPolicy := open Policy in [
   { cls := "EventLoop", ownerChecks := ["this"],
     setup := ["setContext", "getMutableContext"],
@@ -200,7 +207,7 @@ def policies : List ClassPolicy := open Policy in [
     fields := [("loop_", immutable), ("ipPort_", immutable), ("name_", immutable), ("acceptor_", immutable),
       ("threadPool_", immutable), ("connectionCallback_", immutable), ("messageCallback_", immutable),
       ("writeCompleteCallback_", immutable), ("threadInitCallback_", immutable), ("started_", atomic),
-      ("nextConnId_", confined), ("connections_", confined)] },
+      ("nextConnId_", confined), ("connections_", confined), ("alive_", confined)] },
   { cls := "TcpClient", ownerChecks := ["loop_"],
     setup := ["setConnectionCallback", "setMessageCallback", "setWriteCompleteCallback"],
     notThreadSafe := [],
@@ -217,7 +224,7 @@ def policies : List ClassPolicy := open Policy in [
       ("timers_", confined), ("activeTimers_", confined), ("callingExpiredTimers_", confined),
       ("cancelingTimers_", confined)] },
   { cls := "EventLoopThread", ownerChecks := [], setup := [], notThreadSafe := [],
-    fields := [("loop_", guarded "mutex_"), ("exiting_", ctorOnly), ("thread_", owner), ("mutex_", sync),
+    fields := [("loop_", guarded "mutex_"), ("finished_", guarded "mutex_"), ("exiting_", ctorOnly), ("thread_", owner), ("mutex_", sync),
       ("cond_", sync), ("callback_", immutable)] },
   { cls := "EventLoopThreadPool", ownerChecks := ["baseLoop_"],
     setup := ["setThreadNum"], notThreadSafe := ["started"],
@@ -247,7 +254,7 @@ def policies : List ClassPolicy := open Policy in [
   { cls := "Logging", ownerChecks := [],
     setup := ["setLogLevel", "setOutput", "setFlush", "setTimeZone"], notThreadSafe := [],
     fields := [("g_logLevel", immutable), ("g_output", immutable), ("g_flush", immutable),
-      ("g_logTimeZone", immutable)] }
+      ("g_logTimeZone", immutable), ("g_logTimeZoneGen", atomic)] }
 ]
 
 /-- functions that may be called through a member pointer from any thread.  Those of analysed
